@@ -320,7 +320,7 @@ type c13Op struct {
 
 func genRefRule(rc *corepkg) refRule {
 	s := rc.S
-	r := refRule{Group: []string{"pd", "g1", "g2"}[s.Choose(3, "r.group")], ID: []string{"default", "a", "b", "ab", "c"}[s.Choose(5, "r.id")], Index: s.Choose(3, "r.index"),
+	r := refRule{Group: []string{"pd", "g1", "g11"}[s.Choose(3, "r.group")], ID: []string{"default", "a", "b", "ab", "c"}[s.Choose(5, "r.id")], Index: s.Choose(3, "r.index"),
 		Override: s.Choose(5, "r.override") == 0, Role: []string{"voter", "voter", "leader", "follower", "learner"}[s.Choose(5, "r.role")], Count: 1 + s.Choose(3, "r.count")}
 	if r.Role == "leader" {
 		r.Count = 1
@@ -368,38 +368,92 @@ func genC13Op(rc *corepkg, ref *refModel) c13Op {
 			}
 		}}
 	case 5:
-		// batch: deletes and adds in one atomic update
-		add := genRefRule(rc)
-		del := pick()
-		prefix := s.Choose(3, "op.prefix") == 0
-		return c13Op{name: fmt.Sprintf("Batch del %s/%s prefix=%v add %s", del.Group, del.ID, prefix, refJSON(add)), apply: func(m *placement.RuleManager) error {
-			return m.Batch([]placement.RuleOp{
-				{Rule: &placement.Rule{GroupID: del.Group, ID: del.ID}, Action: placement.RuleOpDel, DeleteByIDPrefix: prefix},
-				{Rule: toPD(add), Action: placement.RuleOpAdd},
-			})
-		}, ref: func(m *refModel) {
-			if prefix {
-				for k := range m.rules {
-					if k[0] == del.Group && strings.HasPrefix(k[1], del.ID) {
-						delete(m.rules, k)
+		// batch: an arbitrary sequence of deletes (by id or id prefix) and adds in one atomic update; the same rule may be
+		// added and deleted (or added twice) within the batch - the operations apply in order
+		type bop struct {
+			add    bool
+			r      refRule
+			prefix bool
+		}
+		n := 2 + s.Choose(3, "op.bn")
+		var ops []bop
+		for i := 0; i < n; i++ {
+			switch s.Choose(4, "op.bkind") {
+			case 0:
+				ops = append(ops, bop{add: true, r: genRefRule(rc)})
+			case 1:
+				ops = append(ops, bop{r: pick(), prefix: s.Choose(3, "op.prefix") == 0})
+			case 2:
+				// re-set an existing rule (same key, possibly other content) ...
+				r := genRefRule(rc)
+				e := pick()
+				r.Group, r.ID = e.Group, e.ID
+				ops = append(ops, bop{add: true, r: r})
+			case 3:
+				// ... or delete what an earlier operation of this batch has touched
+				if len(ops) > 0 {
+					ops = append(ops, bop{r: ops[s.Choose(len(ops), "op.bprev")].r})
+				} else {
+					ops = append(ops, bop{r: pick()})
+				}
+			}
+		}
+		// a delete-by-prefix after an add of a matching rule in the same batch is ambiguous (the property does not say
+		// whether the prefix ranges over the configured rules or over the batch so far): not generated
+		for i := range ops {
+			if !ops[i].add && ops[i].prefix {
+				for _, e := range ops[:i] {
+					if e.add && e.r.Group == ops[i].r.Group && strings.HasPrefix(e.r.ID, ops[i].r.ID) {
+						ops[i].prefix = false
 					}
 				}
-			} else {
-				delete(m.rules, [2]string{del.Group, del.ID})
 			}
-			m.rules[[2]string{add.Group, add.ID}] = add
+		}
+		name := "Batch"
+		for _, o := range ops {
+			if o.add {
+				name += " add " + refJSON(o.r)
+			} else {
+				name += fmt.Sprintf(" del %s/%s prefix=%v", o.r.Group, o.r.ID, o.prefix)
+			}
+		}
+		return c13Op{name: name, apply: func(m *placement.RuleManager) error {
+			var l []placement.RuleOp
+			for _, o := range ops {
+				if o.add {
+					l = append(l, placement.RuleOp{Rule: toPD(o.r), Action: placement.RuleOpAdd})
+				} else {
+					l = append(l, placement.RuleOp{Rule: &placement.Rule{GroupID: o.r.Group, ID: o.r.ID}, Action: placement.RuleOpDel, DeleteByIDPrefix: o.prefix})
+				}
+			}
+			return m.Batch(l)
+		}, ref: func(m *refModel) {
+			for _, o := range ops {
+				switch {
+				case o.add:
+					m.rules[[2]string{o.r.Group, o.r.ID}] = o.r
+				case o.prefix:
+					for k := range m.rules {
+						if k[0] == o.r.Group && strings.HasPrefix(k[1], o.r.ID) {
+							delete(m.rules, k)
+						}
+					}
+				default:
+					delete(m.rules, [2]string{o.r.Group, o.r.ID})
+				}
+			}
 		}}
 	case 6:
-		id := []string{"pd", "g1", "g2"}[s.Choose(3, "g.id")]
+		id := []string{"pd", "g1", "g11"}[s.Choose(3, "g.id")]
 		g := refGroup{Index: s.Choose(3, "g.index"), Override: s.Choose(3, "g.override") == 0}
 		return c13Op{name: fmt.Sprintf("SetRuleGroup %s %+v", id, g), apply: func(m *placement.RuleManager) error {
 			return m.SetRuleGroup(&placement.RuleGroup{ID: id, Index: g.Index, Override: g.Override})
 		}, ref: func(m *refModel) { m.setGroup(id, g) }}
 	case 7:
-		id := []string{"pd", "g1", "g2"}[s.Choose(3, "g.id")]
+		id := []string{"pd", "g1", "g11"}[s.Choose(3, "g.id")]
 		return c13Op{name: "DeleteRuleGroup " + id, apply: func(m *placement.RuleManager) error { return m.DeleteRuleGroup(id) }, ref: func(m *refModel) { delete(m.groups, id) }}
 	case 8:
-		id := []string{"pd", "g1", "g2"}[s.Choose(3, "b.id")]
+		id := []string{"pd", "g1", "g11"}[s.Choose(3, "b.id")]
 		g := refGroup{Index: s.Choose(3, "b.index"), Override: s.Choose(4, "b.override") == 0}
 		n := s.Choose(3, "b.n")
 		var rs []refRule
@@ -426,7 +480,7 @@ func genC13Op(rc *corepkg, ref *refModel) c13Op {
 			}
 		}}
 	default:
-		id := []string{"g1", "g2", "pd"}[s.Choose(3, "d.id")]
+		id := []string{"g1", "g11", "pd"}[s.Choose(3, "d.id")]
 		return c13Op{name: "DeleteGroupBundle " + id, apply: func(m *placement.RuleManager) error { return m.DeleteGroupBundle(id, false) }, ref: func(m *refModel) {
 			for k := range m.rules {
 				if k[0] == id {
